@@ -58,7 +58,7 @@ from . import common as C
 
 ID = "C07"
 DRIVER = "drv_c07"
-GEN = ["c2struct", "c16unicode"]
+GEN = ["c2struct", "c16_unicode"]
 KNOWN_ID = "C07-uri-append-initial-uri"
 STREAMS = {
     "sess": {"relevant": True, "desc": "sessions of the real client + reference team server, decoded with rsa-only / aes_rand / aes+hmac keys"},
@@ -83,9 +83,14 @@ TRUSTED = [
     "request is checked to parse back to what the client handed to httpx (token ext)",
 ]
 ASSUMPTIONS = [
-    "well-formed HTTP configuration: upper-case token verbs, URIs that are clean absolute paths (httpx upper-cases the method and "
-    "normalises the path), RoutingDisjoint (a get URI is not a prefix of the submit URI when both verbs are equal), valid programs "
-    "(C04.Ref.valid) with printable placements, static parameters with non-empty values, no uri-append (known finding)",
+    "well-formed HTTP configuration (theorem hypotheses WellFormedCfg + WireCfg): token verbs not starting with HTTP/, URIs that are "
+    "clean absolute paths, RoutingDisjoint (a get URI is not a prefix of the submit URI when both verbs are equal), valid programs "
+    "(C04.Ref.valid) with printable placements (header terminations fed by a CR-free encoder chain), static parameters with "
+    "non-empty values, no uri-append (known finding); the generators additionally keep verbs upper-case and paths free of "
+    "dot-segments / ';' because httpx upper-cases the method and urljoin/httpx normalise the path",
+    "the theorems speak about C16's rendering of a request (every parameter byte outside [A-Za-z0-9_.~-] percent-encoded, exactly the "
+    "client's headers); httpx renders a space as '+' and adds Accept / Accept-Encoding / Connection / Content-Length: that the "
+    "captured bytes parse back to the client's request (headers a superset) is checked on every captured message, not proved",
     "random.getrandbits(32) and the PKCS#1 v1.5 padding bytes are scripted; time.time() is not used (counter is set by the harness)",
     "one beacon session per decoder object (one aes_rand); the `keys=` argument of iter_recover_http is not exercised",
     "send_callback is called with c_c2 BeaconCallback values (a plain int makes CallbackPacket.dumps() raise AttributeError)",
@@ -656,7 +661,7 @@ def gen_uri(rng):
     return u
 
 
-def gen_encs(rng, maxn=4, printable=True):
+def gen_encs(rng, maxn=4, printable=True, alpha=None):
     """encoder statements whose output is printable ASCII when `printable`"""
     n = rng.randrange(0, maxn + 1)
     encs = []
@@ -665,9 +670,9 @@ def gen_encs(rng, maxn=4, printable=True):
         if r < 0.55:
             encs.append(rng.choice(["base64", "base64url", "netbios", "netbiosu", "mask"]))
         elif r < 0.8:
-            encs.append(("prepend", rword(rng, 0, 10, PRINTABLE_SAFE)))
+            encs.append(("prepend", rword(rng, 0, 10, alpha or PRINTABLE_SAFE)))
         else:
-            encs.append(("append", rword(rng, 0, 10, PRINTABLE_SAFE)))
+            encs.append(("append", rword(rng, 0, 10, alpha or PRINTABLE_SAFE)))
     if printable:
         # the payload is binary: after the last non-printable producer there must be a printable encoder
         last_raw = max([i for i, e in enumerate(encs) if e == "mask"], default=-1)
@@ -754,7 +759,8 @@ def gen_synth_cfg(rng, uri_append=False, overlap=False):
         su = rng.choice(get_uris) + rng.choice([b"", b"/submit", b"2"])
     # get program: metadata block
     mterm = gen_term(rng, set(), uri=uri_append)
-    mblock = ("block", "metadata", gen_encs(rng, 4, printable=mterm[0] != "print"), mterm)
+    # (uri-append: the data becomes part of the URL, which urljoin/httpx normalise: only unreserved characters)
+    mblock = ("block", "metadata", gen_encs(rng, 4, printable=mterm[0] != "print", alpha=(ALNUM + b"-_.~") if uri_append else None), mterm)
     hs, ps = term_names([mblock])
     get_items = interleave(rng, gen_decos(rng, hs, ps), [mblock])
     # post program: id + output
